@@ -146,7 +146,7 @@ func runServe(c ServeCase) core.Result {
 	}
 	wantHave := np - len(missing)
 	ready := false
-	for i := 0; i < 400; i++ {
+	for i := 0; i < 1500; i++ {
 		st := tor.Stats()
 		if (st.Status == torrent.Seeding || st.Status == torrent.Downloading) && int(st.Pieces.Have) == wantHave {
 			ready = true
@@ -156,7 +156,7 @@ func runServe(c ServeCase) core.Result {
 	}
 	if !ready {
 		st := tor.Stats()
-		return core.Failf("after 4 s the torrent is %v with %d/%d pieces; storage holds %d correct pieces", st.Status, st.Pieces.Have, st.Pieces.Total, wantHave)
+		return core.Failf("after 15 s the torrent is %v with %d/%d pieces; storage holds %d correct pieces", st.Status, st.Pieces.Have, st.Pieces.Total, wantHave)
 	}
 	clientAddr := fmt.Sprintf("%s:%d", sess.IP(0), tor.Port())
 	res := core.Result{}
